@@ -201,9 +201,9 @@ bool StepScript(InterpreterEnv& env)
             return set_error(serror, SCRIPT_ERR_EVAL_FALSE);
         // Additional validation for spend-to-script-hash transactions:
         if (env.script.IsPayToScriptHash()) {
-            // // scriptSig must be literals-only or validation fails
-            // if (!scriptSig.IsPushOnly())
-            //     return set_error(serror, SCRIPT_ERR_SIG_PUSHONLY);
+            // scriptSig must be literals-only or validation fails
+            if (!env.scriptsig_pushonly)
+                return set_error(serror, SCRIPT_ERR_SIG_PUSHONLY);
 
             // Restore stack.
             is_p2sh = false;
@@ -238,6 +238,7 @@ bool StepScript(InterpreterEnv& env)
         if (!vfExec.empty())
             return set_error(serror, SCRIPT_ERR_UNBALANCED_CONDITIONAL);
         env.altstack.clear();
+        env.scriptsig_pushonly = script.IsPushOnly();
         script = env.successor_script;
         env.successor_script.clear();
         pc = env.pbegincodehash = script.begin();
